@@ -26,6 +26,7 @@ package telemetry
 //@ ghost age int
 //@ ghost marked bool
 //@ ghost nenv int
+//@ ghost modeDir string
 
 // A process is started only by startChild, startChild is called only by
 // parent, and parent only by Start (which checks that the marker is empty).
@@ -44,7 +45,7 @@ package telemetry
 //@   at call child#1: assert $childvar == "1"
 //@   ensures $childvar != "" ==> $spawned == old($spawned) && $fsops == old($fsops)
 //@   ensures $spawned <= old($spawned)+1
-//@   modifies heap, $childvar, $spawned, $fsops, $minsize, $token, $created, $age, $nenv, $marked, $now, $weekend, $ledger, $lost
+//@   modifies heap, telemetry.Default, "G:counter.rotating", "G:counter.defaultFile", $childvar, $spawned, $fsops, $minsize, $token, $created, $age, $nenv, $marked, $now, $weekend, $ledger, $lost, $modeDir
 
 //@ contract MaybeChild
 //@   requires $rd == 0 && $lk == 0
@@ -54,11 +55,16 @@ package telemetry
 //@   ensures $spawned == old($spawned) && $fsops == old($fsops)
 //@   modifies heap, $childvar, $fsops, $minsize, $marked, $now, $weekend, $ledger, $lost
 
-// parent: with mode off nothing is started and nothing is written; otherwise
+// parent: the mode consulted is the mode of the telemetry directory that is then
+// acted upon (the configured one, if any); with mode off nothing is started and nothing is written; otherwise
 // a child is started at most once, and only if crash reporting was requested
 // or uploading was requested and the token was acquired.
 //@ contract parent
 //@   requires $rd == 0 && $lk == 0
+//@   at call Mode#1: ghost $modeDir = arg0.Dir()
+//@   at call Open#1: assert telemetry.Default.Dir() == $modeDir
+//@   at call acquireUploadToken#1: assert telemetry.Default.Dir() == $modeDir
+//@   at call startChild#1: assert telemetry.Default.Dir() == $modeDir
 //@   at call acquireUploadToken#1: assert $mode != "off" && config.Upload
 //@   at call acquireUploadToken#1: after ghost $token = result
 //@   at call startChild#1: assert $mode != "off" && (arg0 || arg1) && arg0 == config.ReportCrashes && (arg1 ==> config.Upload && $token)
@@ -66,7 +72,7 @@ package telemetry
 //@   ensures $mode == "off" ==> $fsops == old($fsops) && $spawned == old($spawned)
 //@   ensures $spawned != old($spawned) ==> config.ReportCrashes || (config.Upload && $token)
 //@   ensures $spawned <= old($spawned)+1
-//@   modifies heap, $spawned, $fsops, $minsize, $token, $created, $age, $nenv, $now, $weekend, $ledger, $lost
+//@   modifies heap, telemetry.Default, "G:counter.rotating", "G:counter.defaultFile", $spawned, $fsops, $minsize, $token, $created, $age, $nenv, $now, $weekend, $ledger, $lost, $modeDir
 
 // startChild: the new process carries GO_TELEMETRY_CHILD=1 as the entry after
 // the copied environment, and GO_TELEMETRY_CHILD_UPLOAD=1 after it exactly
